@@ -402,7 +402,14 @@ func (fb *formulaBuilder) compare(x *ssa.BinOp) BExpr {
 		if isNilConst(x.X) {
 			other = x.Y
 		}
-		a := bBool{"isnil(" + fb.name(other) + ")"}
+		var a BExpr = bBool{"isnil(" + fb.name(other) + ")"}
+		// a value merged from several exits (the error of an expanded helper): nil exactly on
+		// the edges that carry nil
+		if phi, ok := strip(other).(*ssa.Phi); ok {
+			if e := fb.nilOfPhi(phi); e != nil {
+				a = e
+			}
+		}
 		if rel == "=" {
 			return a
 		}
@@ -523,4 +530,43 @@ func leaves(e BExpr, f func(BExpr)) {
 	default:
 		f(e)
 	}
+}
+
+// nilOfPhi: "phi == nil" as the disjunction over the incoming edges of (edge taken ∧ the value
+// carried is nil); nil if the phi is loop-carried.
+func (fb *formulaBuilder) nilOfPhi(phi *ssa.Phi) BExpr {
+	if fb.phiBusy == nil {
+		fb.phiBusy = map[*ssa.Phi]bool{}
+	}
+	if fb.phiBusy[phi] {
+		return nil
+	}
+	for i := range phi.Edges {
+		if phi.Block().Dominates(phi.Block().Preds[i]) {
+			return nil
+		}
+	}
+	fb.phiBusy[phi] = true
+	defer func() { fb.phiBusy[phi] = false }()
+	var alts []BExpr
+	for i, e := range phi.Edges {
+		ec := fb.edgeCond(phi.Block().Preds[i], phi.Block())
+		var isNil BExpr
+		switch {
+		case isNilConst(e):
+			isNil = bConst(true)
+		case knownNonNil(e):
+			isNil = bConst(false)
+		default:
+			if p2, ok := strip(e).(*ssa.Phi); ok {
+				if sub := fb.nilOfPhi(p2); sub != nil {
+					isNil = sub
+					break
+				}
+			}
+			isNil = bBool{"isnil(" + fb.name(e) + ")"}
+		}
+		alts = append(alts, bAnd{[]BExpr{ec, isNil}})
+	}
+	return bOr{alts}
 }
